@@ -446,6 +446,10 @@ def run_faults(run, vf, prop):
     must += pick(long_outage, 1, run.seed)
     if prop == "C25":
         must += pick(close_in_outage, 1, run.seed)
+        # always: Close() while the monitor has entered a reconnect arm (nothing but Closed may be reported afterwards)
+        arm = lambda r, arms: r["items"] and r["items"][-1]["k"] == "close" and r["items"][-1]["at"] in arms
+        must += pick([r for r in orows + rows if arm(r, ("createSecureChannel", "restoreSession", "recreateSession"))], 1, run.seed)
+        must += pick([r for r in orows + rows if arm(r, ("restoreSubscriptions",)) and r["script"]], 1, run.seed)
     rows += [r for r in orows if r not in rows]
     sel = must + [r for r in pick(rows, n, run.seed, key=kinds) if r not in must][:max(0, n - len(must))]
     if prop == "C25":
@@ -529,9 +533,15 @@ def run_faults(run, vf, prop):
         text = "".join(t[1] for t in traces + ack_only)
         return run.tlc("ClientConn", "AckObs", "AckObs.cfg", mode="trace", files={"trace.ndjson": text}, count=True, timeout=1500,
                        label="acknowledgement observer over %d traces" % len(traces))
+    def stateobs():
+        text = "".join(t[1] for t in traces)
+        return run.tlc("ClientConn", "StateObs", "StateObs.cfg", mode="trace", files={"trace.ndjson": text}, count=True, timeout=1500,
+                       label="state observer (documented transitions, nothing after Close) over %d traces" % len(traces))
     thunks = [(lambda t=t: validate(t)) for t in traces]
     if prop == "C26" and (traces or ack_only):
         thunks.append(ackobs)
+    if prop == "C25" and traces:
+        thunks.append(stateobs)
     out = []
     step = 12
     for k in range(0, len(thunks), step):
@@ -541,14 +551,14 @@ def run_faults(run, vf, prop):
         if not isinstance(o, tuple):
             # AckObs: deterministic observer, one batch; map the event index back to its scenario
             if not o.ok:
-                run.save_text("tlc-ackobs.out", o.out)
-                raise vf.Inconclusive("acknowledgement observer did not run: %s" % (o.error or o.violated,))
+                run.save_text("tlc-observer.out", o.out)
+                raise vf.Inconclusive("observer did not run: %s" % (o.error or o.violated,))
             spans, a = [], 1
-            for cid, text, n in traces + ack_only:
+            for cid, text, n in (traces + ack_only if prop == "C26" else traces):
                 spans.append((a, a + n - 1, cid))
                 a += n
             seen = set()
-            for m in re.finditer(r'"(ACKTWICE|ACKMISSING) (\d+) ([^"]*)"', o.out):
+            for m in re.finditer(r'"(ACKTWICE|ACKMISSING|UNDOC|AFTERCLOSE) (\d+) ([^"]*)"', o.out):
                 what, k, rest = m.group(1), int(m.group(2)), m.group(3)
                 if (what, k, rest) in seen:
                     continue
@@ -561,12 +571,6 @@ def run_faults(run, vf, prop):
         cid, text, tv = o
         c = byid[cid]
         seen = set()
-        for m in re.finditer(r'"(UNDOC|AFTERCLOSE) (\d+) ([^"]*)"', tv.out):
-            what, k, rest = m.group(1), int(m.group(2)), m.group(3)
-            if (what, k) in seen:
-                continue
-            seen.add((what, k))
-            report(what, k, rest, {"script": c.get("script"), "items": c.get("items"), "noauto": c.get("noauto"), "event": k})
         if tv.ok:
             run.cov["traces_validated_against_impl"] += 1
         elif "STUCK" in tv.out:
